@@ -15,7 +15,17 @@ def add_infos(sc, rnd):
             # nearest enclosing history of f among hist_dirs
             cands = [d for d in hist_dirs if d == "" or f.startswith(d + "/")]
             at = max(cands, key=len) if cands else ""
-            extra.append({"op": "infosf", "at": at, "file": f[len(at) + 1 :] if at else f, "auto_root": rnd.random() < 0.5, "rel_cwd": rnd.random() < 0.35})
+            if cands and rnd.random() < 0.4:
+                # asked with an enclosing history as ROOT that is not the nearest one: the lines are still those of the
+                # nearest enclosing history of the file
+                at = rnd.choice(cands)
+                extra.append({"op": "infosf", "at": at, "file": f[len(at) + 1 :] if at else f})
+            else:
+                extra.append({"op": "infosf", "at": at, "file": f[len(at) + 1 :] if at else f, "auto_root": rnd.random() < 0.5, "rel_cwd": rnd.random() < 0.35})
+            if rnd.random() < 0.35:
+                # several files in one call (also the same one twice), from the root
+                fs_ = [rnd.choice(files) for _ in range(rnd.randint(2, 4))]
+                extra.append({"op": "infosf", "at": "", "file": fs_[0], "files": fs_})
     # the listing is read on another machine: the dates shown are the recorded ones, whatever the reader's zone
     for o in extra:
         if rnd.random() < 0.3:
@@ -78,23 +88,32 @@ def monitor(sc, res):
             if got != exp:
                 fails.append({"what": f"info lists generations {got}, the manifests on disk are {exp}", "replay": sc})
         else:
-            f = op["file"]
-            exp = []
-            for num, name, b in hs[at]["gens"]:
-                m = O.parse_manifest_bytes(b)
-                cd = m["creationdate"]
-                # the tool's lookup: the last record of the generation that carries this path or this previous path
-                recs = [r for r in m["records"] if r["path"] == f or r.get("prev") == f]
-                if recs:
-                    r = recs[-1]
-                    for e in r["entries"]:
-                        if r["kind"] == "dir":
-                            exp.append((num, cd, f"{e['fmt']}: {e['digest']} (None)"))
-                        else:
-                            exp.append((num, cd, f"{e['fmt']}: {e['digest']} ({e['action']})"))
-            got = [(n, date, rest) for _, n, date, rest in lines]
-            if got != exp:
-                fails.append({"what": f"info -sf {f!r} prints {got}, the manifests hold {exp}", "replay": sc})
+            got_secs = scenario.parse_infosf(io_["out"])
+            asked = op.get("files") or [op["file"]]
+            if len(got_secs) != len(asked):
+                fails.append({"what": f"info -sf for {asked} prints {len(got_secs)} sections: {[h for h, _ in got_secs]}", "replay": sc})
+                continue
+            roots = [r for r in hs if O.within(r, at) and hs[r]["gens"]]
+            for f, (hdr, glines) in zip(asked, got_secs):
+                full = O.join(at, f)
+                # the nearest enclosing history of the file among the histories below the given root
+                near = max([r for r in roots if r == "" or full == r or full.startswith(r + "/")] or [at], key=len)
+                relf = (full[len(near) + 1:] if near else full) or "."
+                exp = []
+                for num, name, b in hs[near]["gens"]:
+                    m = O.parse_manifest_bytes(b)
+                    cd = m["creationdate"]
+                    # the tool's lookup: the last record of the generation that carries this path or this previous path
+                    recs = [r for r in m["records"] if r["path"] == relf or r.get("prev") == relf]
+                    if recs:
+                        r = recs[-1]
+                        for e in r["entries"]:
+                            if r["kind"] == "dir":
+                                exp.append((num, cd, f"{e['fmt']}: {e['digest']} (None)"))
+                            else:
+                                exp.append((num, cd, f"{e['fmt']}: {e['digest']} ({e['action']})"))
+                if glines != exp:
+                    fails.append({"what": f"info -sf {f!r}{' (asked at ' + repr(at) + ', nearest history ' + repr(near) + ')' if near != at else ''}{' in a call naming ' + str(asked) if len(asked) > 1 else ''} prints {glines}, the manifests hold {exp}", "replay": sc})
     return fails
 
 
@@ -103,6 +122,14 @@ def run(ctx):
     scs = [add_infos(s, rnd) for s in _scn.standard_pool(ctx, ctx.scale(50, 800), ctx.scale(50, 800), ctx.scale(3, 30))]
     # no-history cases
     scs.append({"profile": "nohist", "root": "root", "tree": {"a.txt": "a", "s/b.txt": "b"}, "ops": [{"op": "info", "at": ""}, {"op": "infosf", "at": "", "file": "a.txt"}, {"op": "create", "at": "s", "h": ["md5"]}, {"op": "info", "at": ""}, {"op": "info", "at": "s"}, {"op": "infosf", "at": "s", "file": "b.txt", "auto_root": True}]})
+    # namesakes: a file of a nested history and a file of the root history with the same history-relative path, asked
+    # one by one and in one call, with the root and with the nested folder as ROOT
+    tree = {"clip.mov": "root clip", "A/clip.mov": "nested clip", "A/only.mov": "only", "A/B/clip.mov": "deep clip", "other.mov": "o"}
+    seal = [{"op": "create", "at": "A/B", "h": ["md5"], "now": "2026-03-01 12:00:01"}, {"op": "create", "at": "A", "h": ["sha1"], "now": "2026-03-01 12:00:02"},
+            {"op": "create", "at": "", "h": ["xxh64"], "now": "2026-03-01 12:00:03"}, {"op": "write", "path": "A/clip.mov", "data": "ALTERED"}, {"op": "create", "at": "", "h": ["md5"], "now": "2026-03-01 12:00:04"}]
+    asks = [{"op": "infosf", "at": "", "file": f} for f in ("A/clip.mov", "clip.mov", "A/B/clip.mov", "A/only.mov")] + [{"op": "infosf", "at": "A", "file": f} for f in ("clip.mov", "B/clip.mov")]
+    asks += [{"op": "infosf", "at": "", "file": "A/only.mov", "files": fs_} for fs_ in (["A/only.mov", "clip.mov"], ["clip.mov", "A/clip.mov", "A/B/clip.mov"], ["other.mov", "other.mov", "A/only.mov"])]
+    scs.append({"profile": "c19-namesakes", "root": "root", "tree": tree, "ops": seal + asks})
     # a history whose manifests are large (hundreds of records: the reader receives them in several blocks), and the
     # empty folder (a history that records no path at all still has generations)
     big = {"d%02d/f%03d.bin" % (i % 7, i): "content %d" % i for i in range(ctx.scale(260, 900))}
@@ -110,7 +137,7 @@ def run(ctx):
                 "ops": [{"op": "create", "at": "", "h": ["md5", "sha1", "c4"], "now": "2026-03-01 12:00:01"}, {"op": "create", "at": "", "h": ["xxh64"], "now": "2026-03-01 12:00:02"}, {"op": "info", "at": ""}]
                        + [{"op": "infosf", "at": "", "file": "d%02d/f%03d.bin" % (i % 7, i)} for i in range(0, len(big), max(1, len(big) // 40))]})
     scs.append({"profile": "c19-empty", "root": "root", "tree": {"e/": None}, "ops": [{"op": "create", "at": "", "h": ["md5"], "now": "2026-03-01 12:00:01"}, {"op": "info", "at": ""}, {"op": "create", "at": "e", "h": ["md5"], "now": "2026-03-01 12:00:02"}, {"op": "info", "at": "e"}, {"op": "info", "at": ""}]})
-    return _scn.run_scn(ctx, scs, monitor)
+    return _scn.run_scn(ctx, scs, monitor, witness_ids=("D18",))
 
 
 def replay(ctx, path):
